@@ -258,3 +258,292 @@ Proof.
   - cbn [nth] in Eq |- *. rewrite FR_0 in *. rewrite <- Eq. fl. ring.
   - rewrite (G (S k) ltac:(lia)) in Eq. exact Eq.
 Qed.
+
+(* ================================================================ diagonally dominant systems: the matrix part from the data *)
+(* ---------------------------------------------------------------- range lemmas on the reals *)
+Local Instance P53t : Prec_gt_0 53 := eq_refl.
+
+Lemma rnd64_abs_le x e : (-1074 <= e)%Z -> Rabs x <= bpow radix2 e -> Rabs (rnd64 x) <= bpow radix2 e.
+Proof.
+  intros He H. unfold rnd64.
+  apply abs_round_le_generic; [apply FLT_exp_valid; reflexivity|apply valid_rnd_N| |exact H].
+  apply generic_format_bpow. unfold FLT_exp. lia.
+Qed.
+
+Lemma no_overflow_le x e : (-1074 <= e <= 1023)%Z -> Rabs x <= bpow radix2 e -> no_overflow x.
+Proof.
+  intros He H. unfold no_overflow.
+  apply Rle_lt_trans with (bpow radix2 e); [apply rnd64_abs_le; [lia|exact H]|apply bpow_lt; lia].
+Qed.
+
+Lemma nounder_ge x e : (-1022 <= e)%Z -> bpow radix2 e <= Rabs x -> no_underflow x.
+Proof. intros He H. right. apply Rle_trans with (bpow radix2 e); [apply bpow_le; lia|exact H]. Qed.
+
+Lemma quot_abs_ge (c b : R) (e1 e2 : Z) : bpow radix2 e1 <= Rabs c -> b <> 0 -> Rabs b <= bpow radix2 e2 ->
+  bpow radix2 (e1 - e2) <= Rabs (c / b).
+Proof.
+  intros Hc Hb Hb2. unfold Rdiv. rewrite Rabs_mult, Rabs_inv.
+  assert (Pb : 0 < Rabs b) by now apply Rabs_pos_lt.
+  apply (Rmult_le_reg_r (Rabs b)); [exact Pb|].
+  rewrite Rmult_assoc, Rinv_l, Rmult_1_r by lra.
+  apply Rle_trans with (bpow radix2 (e1 - e2) * bpow radix2 e2).
+  - apply Rmult_le_compat_l; [apply bpow_ge_0|exact Hb2].
+  - rewrite <- bpow_plus. replace (e1 - e2 + e2)%Z with e1 by lia. exact Hc.
+Qed.
+
+Lemma prod_abs_ge (a g : R) (e1 e2 : Z) : bpow radix2 e1 <= Rabs a -> bpow radix2 e2 <= Rabs g ->
+  bpow radix2 (e1 + e2) <= Rabs (a * g).
+Proof.
+  intros Ha Hg. rewrite Rabs_mult, bpow_plus.
+  pose proof (bpow_ge_0 radix2 e1). pose proof (bpow_ge_0 radix2 e2).
+  apply Rmult_le_compat; assumption.
+Qed.
+
+Lemma half_le_1mu : / 2 <= 1 - u64.
+Proof. pose proof OV.Proofs.RoundDotFloat.u64_small. lra. Qed.
+
+(* a rounded value keeps at least half of the magnitude *)
+Lemma rel_abs_ge x d e : Rabs d <= u64 -> bpow radix2 e <= Rabs x -> bpow radix2 (e - 1) <= Rabs (x * (1 + d)).
+Proof.
+  intros Hd Hx. rewrite Rabs_mult. pose proof (abs_one_plus u64 u64_range64 d Hd) as (L & _).
+  pose proof half_le_1mu. unfold Zminus. rewrite bpow_plus. change (bpow radix2 (- (1))) with (/ 2).
+  pose proof (bpow_gt_0 radix2 e). nra.
+Qed.
+
+(* ---------------------------------------------------------------- hypotheses on the data *)
+(* all entries finite *)
+Definition tri_finite (t : tridiag AF) : Prop :=
+  (forall i, (i < tn t)%nat -> ffinite (nth i (tmain t) 0%float)) /\
+  (forall i, (i + 1 < tn t)%nat -> ffinite (nth i (tsub t) 0%float) /\ ffinite (nth i (tsup t) 0%float)).
+
+(* magnitudes: |main_i| <= 2^300; an off-diagonal entry is zero or at least 2^-300 *)
+Definition tri_scaled (t : tridiag AF) : Prop :=
+  (forall i, (i < tn t)%nat -> Rabs (FR (nth i (tmain t) 0%float)) <= bpow radix2 300) /\
+  (forall i, (i + 1 < tn t)%nat ->
+     (FR (nth i (tsub t) 0%float) = 0 \/ bpow radix2 (-300) <= Rabs (FR (nth i (tsub t) 0%float))) /\
+     (FR (nth i (tsup t) 0%float) = 0 \/ bpow radix2 (-300) <= Rabs (FR (nth i (tsup t) 0%float)))).
+
+(* strict diagonal dominance by rows, with the margin the rounding needs (dominant_su of TridiagRound.v on the values) *)
+Definition dominant_f (t : tridiag AF) : Prop :=
+  forall i, (i < tn t)%nat ->
+    (Rabs (FR (nth i (0%float :: tsub t) 0%float)) + Rabs (FR (nth i (tsup t) 0%float))) * (1 + u64)
+    < Rabs (FR (nth i (tmain t) 0%float)) * (1 - u64).
+
+(* the invariant of the elimination at step k *)
+Definition pivot_ok (t : tridiag AF) (k : nat) : Prop :=
+  ffinite (tbeta t k) /\ FR (tbeta t k) <> 0 /\
+  Rabs (FR (nth k (tsup t) 0%float)) * (1 + u64) <= Rabs (FR (tbeta t k)) /\
+  Rabs (FR (tbeta t k)) <= bpow radix2 302.
+
+Definition mult_ok (t : tridiag AF) (k : nat) : Prop :=   (* about gamma_{k+1} = sup_k / beta_k *)
+  ffinite (tgamma t (k + 1)) /\ Rabs (FR (tgamma t (k + 1))) <= 1 /\
+  (FR (tgamma t (k + 1)) = 0 \/ bpow radix2 (-603) <= Rabs (FR (tgamma t (k + 1)))) /\
+  no_underflow (FR (nth k (tsup t) 0%float) / FR (tbeta t k)).
+
+Lemma mult_step (t : tridiag AF) k : tri_finite t -> tri_scaled t -> (k + 1 < tn t)%nat ->
+  pivot_ok t k -> mult_ok t k.
+Proof.
+  intros (_ & Fo) (_ & So) Hk (Fb & Nb & Lb & Ub).
+  destruct (Fo k Hk) as (_ & Fc). destruct (So k Hk) as (_ & Sc).
+  set (c := FR (nth k (tsup t) 0%float)) in *. set (b := FR (tbeta t k)) in *.
+  pose proof u64_range64 as Hu.
+  assert (Pb : 0 < Rabs b) by now apply Rabs_pos_lt.
+  assert (Hq1 : Rabs (c / b) <= 1).
+  { unfold Rdiv. rewrite Rabs_mult, Rabs_inv. apply (Rmult_le_reg_r (Rabs b)); [exact Pb|].
+    rewrite Rmult_assoc, Rinv_l, Rmult_1_r, Rmult_1_l by lra. pose proof (Rabs_pos c). nra. }
+  assert (Uq : no_underflow (c / b)).
+  { destruct Sc as [Z|Sc]; [left; rewrite Z; unfold Rdiv; ring|].
+    apply (nounder_ge _ (-300 - 302)); [lia|]. now apply quot_abs_ge. }
+  assert (Oq : no_overflow (c / b)).
+  { apply (no_overflow_le _ 0); [lia|]. exact Hq1. }
+  unfold mult_ok. replace (k + 1)%nat with (S k) by lia. cbn [tgamma].
+  destruct (fdiv_correct _ _ Fc Nb Oq) as (Eg & Fg). fold c b in Eg.
+  destruct (rnd64_rel_ex _ Uq) as (d1 & H1 & E1). rewrite E1 in Eg.
+  split; [exact Fg|]. rewrite Eg.
+  split; [apply (mult_le_1 u64 Hu); assumption|].
+  split; [|exact Uq].
+  destruct Sc as [Z|Sc]; [left; rewrite Z; unfold Rdiv; ring|right].
+  apply (rel_abs_ge _ _ (-602)); [exact H1|]. change (-602)%Z with (-300 - 302)%Z. now apply quot_abs_ge.
+Qed.
+
+Lemma pivot_step (t : tridiag AF) k : tri_finite t -> tri_scaled t -> dominant_f t -> (k + 1 < tn t)%nat ->
+  mult_ok t k ->
+  pivot_ok t (k + 1) /\ no_underflow (FR (nth k (tsub t) 0%float) * FR (tgamma t (k + 1))).
+Proof.
+  intros (Fm & Fo) (Sm & So) D Hk (Fg & Hg & Sg & _).
+  destruct (Fo k Hk) as (Fa & _). destruct (So k Hk) as (Sa & _).
+  pose proof (Fm (k + 1)%nat Hk) as Fmk. pose proof (Sm (k + 1)%nat Hk) as Smk. pose proof (D (k + 1)%nat Hk) as Dk.
+  unfold pivot_ok. replace (k + 1)%nat with (S k) in * by lia. cbn [nth] in Dk. rewrite tbeta_S. fl.
+  set (a := FR (@nth PrimFloat.float k (tsub t) 0%float)) in *. set (g := FR (tgamma t (S k))) in *.
+  set (m := FR (@nth PrimFloat.float (S k) (tmain t) 0%float)) in *.
+  set (c := FR (@nth PrimFloat.float (S k) (tsup t) 0%float)) in *.
+  pose proof u64_range64 as Hu. pose proof (Rabs_pos a) as Pa. pose proof (Rabs_pos c) as Pc. pose proof (Rabs_pos m) as Pm.
+  assert (Ham : Rabs a <= Rabs m) by nra.
+  assert (B300 : bpow radix2 300 + bpow radix2 300 * 2 <= bpow radix2 302).
+  { change 302%Z with (300 + 2)%Z. rewrite bpow_plus. change (bpow radix2 2) with 4.
+    pose proof (bpow_gt_0 radix2 300). lra. }
+  assert (Hag : Rabs (a * g) <= Rabs a) by (rewrite Rabs_mult; pose proof (Rabs_pos g); nra).
+  assert (Up : no_underflow (a * g)).
+  { destruct Sa as [Z|Sa]; [left; rewrite Z; ring|]. destruct Sg as [Z|Sg]; [left; rewrite Z; ring|].
+    apply (nounder_ge _ (-300 + -603)); [lia|]. now apply prod_abs_ge. }
+  assert (Op : no_overflow (a * g)) by (apply (no_overflow_le _ 300); [lia|lra]).
+  destruct (fmul_correct _ _ Op) as (Ep & Fp). specialize (Fp Fa Fg). fold a g in Ep.
+  destruct (rnd64_rel_ex _ Up) as (d2 & H2 & E2). rewrite E2 in Ep.
+  pose proof (abs_one_plus u64 Hu d2 H2) as A2.
+  assert (Hs : Rabs (m - a * g * (1 + d2)) <= bpow radix2 302).
+  { eapply Rle_trans; [apply Rabs_triang|]. rewrite Rabs_Ropp, Rabs_mult.
+    assert (Rabs (a * g) * Rabs (1 + d2) <= bpow radix2 300 * 2) by (apply Rmult_le_compat; try apply Rabs_pos; lra).
+    lra. }
+  assert (Os : no_overflow (m - FR (nth k (tsub t) 0 * tgamma t (S k))%float)).
+  { fl. rewrite Ep. apply (no_overflow_le _ 302); [lia|exact Hs]. }
+  destruct (fsub_correct _ _ Fmk Fp Os) as (Eb & Fb). fold m in Eb.
+  assert (E3 : exists d3, Rabs d3 <= u64 /\
+             rnd64 (m - FR (nth k (tsub t) 0 * tgamma t (S k))%float) = (m - a * g * (1 + d2)) * (1 + d3)).
+  { fl. unfold Rminus at 1. destruct (rnd64_plus_ex m (- FR (nth k (tsub t) 0 * tgamma t (S k))%float)) as (d3 & H3 & E3).
+    - apply FR_fmt.
+    - apply generic_format_opp. apply FR_fmt.
+    - exists d3. split; [exact H3|]. fl. rewrite E3, Ep. ring. }
+  destruct E3 as (d3 & H3 & E3).
+  pose proof (abs_one_plus u64 Hu d3 H3) as A3.
+  split; [|exact Up].
+  split; [exact Fb|]. fl. rewrite Eb. fl.
+  split; [rewrite E3; apply (candidate_nz u64 Hu a m c g d2 d3 Hg H2 H3 Dk)|].
+  split.
+  - rewrite E3, Rabs_mult.
+    assert (Ht : Rabs (m - a * g * (1 + d2)) >= Rabs m - Rabs a * (1 + u64)).
+    { eapply Rge_trans; [apply Rle_ge, Rabs_triang_inv|]. rewrite !Rabs_mult.
+      pose proof (Rabs_pos g).
+      assert (P1 : Rabs g * Rabs (1 + d2) <= 1 + u64) by nra.
+      nra. }
+    apply (dom_step_alg u64 Hu (Rabs m) (Rabs a) (Rabs c)); [assumption|assumption|assumption|lra|exact Ht|lra].
+  - rewrite Ep. apply rnd64_abs_le; [lia|exact Hs].
+Qed.
+
+Lemma pivot_0 (t : tridiag AF) : (1 <= tn t)%nat -> tri_finite t -> tri_scaled t -> dominant_f t -> pivot_ok t 0.
+Proof.
+  intros Hn (Fm & _) (Sm & _) D. specialize (D 0%nat ltac:(lia)). cbn [nth] in D. rewrite FR_0, Rabs_R0 in D.
+  unfold pivot_ok. change (tbeta t 0) with (nth 0 (tmain t) 0%float).
+  pose proof u64_range64 as Hu. pose proof (Rabs_pos (FR (nth 0 (tsup t) 0%float))).
+  pose proof (Rabs_pos (FR (nth 0 (tmain t) 0%float))).
+  split; [apply Fm; lia|]. split.
+  - intros Z. rewrite Z, Rabs_R0 in D. nra.
+  - split; [nra|]. eapply Rle_trans; [apply Sm; lia|]. apply bpow_le. lia.
+Qed.
+
+(* every pivot and every multiplier is finite, in range and bounded: purely from the data *)
+Lemma pivots_from_data (t : tridiag AF) : (1 <= tn t)%nat -> tri_finite t -> tri_scaled t -> dominant_f t ->
+  forall k, (k < tn t)%nat -> pivot_ok t k /\
+    ((k + 1 < tn t)%nat -> mult_ok t k /\ no_underflow (FR (nth k (tsub t) 0%float) * FR (tgamma t (k + 1)))).
+Proof.
+  intros Hn HF HS HD. induction k as [|k IH]; intros Hk.
+  - pose proof (pivot_0 t Hn HF HS HD) as P0. split; [exact P0|]. intros H1.
+    pose proof (mult_step t 0 HF HS H1 P0) as M0. split; [exact M0|].
+    exact (proj2 (pivot_step t 0 HF HS HD H1 M0)).
+  - destruct (IH ltac:(lia)) as (Pk & Mk). destruct (Mk ltac:(lia)) as (Mk' & _).
+    destruct (pivot_step t k HF HS HD ltac:(lia) Mk') as (P1 & _). replace (k + 1)%nat with (S k) in P1 by lia.
+    split; [exact P1|]. intros H1.
+    pose proof (mult_step t (S k) HF HS H1 P1) as M1. split; [exact M1|].
+    exact (proj2 (pivot_step t (S k) HF HS HD H1 M1)).
+Qed.
+
+Notation fnth k l := (@nth PrimFloat.float k l 0%float) (only parsing).
+
+Lemma dominant_f_su (t : tridiag AF) : dominant_f t -> dominant_su u64 Fadd Fsub Fmul Fdiv (tFR t).
+Proof.
+  intros D i Hi. cbn [tFR tn] in Hi. specialize (D i Hi). cbn [tFR tmain tsub tsup].
+  change (0 :: map FR (tsub t)) with (map FR (0%float :: tsub t)). rewrite !nth_map_FR. exact D.
+Qed.
+
+(* ---------------------------------------------------------------- Theorem 1b: backward stability for dominant systems at binary64 *)
+Theorem thomas_dominant_backward_stable_float_lemma (t : tridiag AF) (r x : list pfloat) :
+  wfT t -> (1 <= tn t)%nat -> length r = tn t -> dominant_f t -> tsolve (A := AF) t r = Ok x ->
+  (forall i, (i < tn t)%nat -> ffinite (nth i x 0%float)) ->
+  (forall k, (k < tn t)%nat -> ffinite (tbeta t k)) ->
+  thomas_nounder_matrix t -> thomas_nounder_rhs t r x ->
+  length x = tn t /\
+  forall i, (i < tn t)%nat -> exists da db dc,
+    Rabs da <= 3 * u64 * Rabs (FR (nth i (0%float :: tsub t) 0%float)) /\
+    Rabs db <= 5 * u64 * Rabs (FR (nth i (tmain t) 0%float)) + 9 * u64 * Rabs (FR (nth i (0%float :: tsub t) 0%float)) /\
+    Rabs dc <= 5 * u64 * Rabs (FR (nth i (tsup t) 0%float)) /\
+    (FR (nth i (0%float :: tsub t) 0%float) + da) * FR (nth i (0%float :: x) 0%float)
+    + (FR (nth i (tmain t) 0%float) + db) * FR (nth i x 0%float)
+    + (FR (nth i (tsup t) 0%float) + dc) * FR (nth (i + 1) x 0%float) = FR (nth i r 0%float).
+Proof.
+  intros W Hn Hr D E Fx Fb UM UR.
+  destruct (thomas_float_real_trace t r x W Hn Hr E Fx Fb UM UR)
+    as (Lx & bl & gl & yl & Lb & Lg & Ly & G & Rel & Vlast & Vback).
+  split; [exact Lx|]. intros i Hi.
+  pose proof u64_range64 as Hu.
+  destruct (backward_rows u64 Hu Fadd Fsub Fmul Fdiv Fsub_ok Fmul_ok Fdiv_ok (tFR t)
+              (map FR r) (map FR x) (map FR bl) (map FR gl) (map FR yl) (tFR_wf t W) Hn
+              ltac:(now rewrite map_length) ltac:(now rewrite map_length) ltac:(now rewrite map_length)
+              ltac:(now rewrite map_length) ltac:(now rewrite map_length) Rel Vlast Vback i Hi)
+    as (ea & eb & ec & eg & Ha & Hb & Hc & Hg & Eq).
+  assert (Gi : (1 <= i)%nat -> Rabs (nth i (map FR gl) 0) <= 1).
+  { intros H1.
+    destruct (multipliers_bounded u64 Hu Fadd Fsub Fmul Fdiv Fsub_ok Fmul_ok Fdiv_ok (tFR t) (map FR r)
+                (map FR bl) (map FR gl) (map FR yl) (tn t) (tFR_wf t W)
+                (dominant_su_u u64 Hu Fadd Fsub Fmul Fdiv (tFR t) (dominant_f_su t D)) (le_n _) Rel i Hi) as (_ & Gb).
+    exact (Gb H1). }
+  cbn [tFR tmain tsub tsup] in Eq.
+  change (0 :: map FR (tsub t)) with (map FR (0%float :: tsub t)) in Eq.
+  change (0 :: map FR x) with (map FR (0%float :: x)) in Eq.
+  rewrite !nth_map_FR in Eq. rewrite nth_map_FR in Gi.
+  fl. set (a := FR (fnth i (0%float :: tsub t))) in *. set (b := FR (fnth i (tmain t))) in *.
+  set (c := FR (fnth i (tsup t))) in *. set (g := FR (fnth i gl)) in *.
+  assert (Hag : Rabs (a * g) <= Rabs a).
+  { destruct i as [|k].
+    - subst a. cbn [nth]. rewrite FR_0, Rmult_0_l. lra.
+    - rewrite Rabs_mult. pose proof (Rabs_pos a). specialize (Gi ltac:(lia)). nra. }
+  exists (a * ea), (b * eb + a * g * eg), (c * ec).
+  split; [rewrite Rabs_mult; pose proof (Rabs_pos a); nra|].
+  split.
+  { eapply Rle_trans; [apply Rabs_triang|]. rewrite (Rabs_mult b eb), (Rabs_mult (a * g) eg).
+    pose proof (Rabs_pos b). pose proof (Rabs_pos (a * g)). pose proof (Rabs_pos eb). pose proof (Rabs_pos eg). nra. }
+  split; [rewrite Rabs_mult; pose proof (Rabs_pos c); nra|].
+  rewrite <- Eq. ring.
+Qed.
+
+(* ---------------------------------------------------------------- Theorem 2: dominant systems, the matrix part from the data *)
+Lemma thomas_dominant_solved_float_lemma (t : tridiag AF) (r : list pfloat) :
+  wfT t -> (1 <= tn t)%nat -> length r = tn t -> tri_finite t -> tri_scaled t -> dominant_f t ->
+  exists x, tsolve (A := AF) t r = Ok x /\ length x = tn t.
+Proof.
+  intros W Hn Hr HF HS HD.
+  assert (DA : forall x y : AF, eqb y zero = false -> exists z, div x y = Ok z)
+    by (intros x y _; eexists; reflexivity).
+  destruct (thomas_shape_lemma (A := AF) DA t r W Hn Hr) as [(x & E & Lx)|E]; [now exists x|].
+  exfalso.
+  destruct (thomas_refusal_trace_lemma (A := AF) t r W Hn Hr DA E) as [Z|(k & bl & gl & yl & g & Hk & Lb & Rel & Eg & Ez)].
+  - destruct (pivots_from_data t Hn HF HS HD 0%nat ltac:(lia)) as ((Fb & Nb & _) & _).
+    change (tbeta t 0) with (nth 0 (tmain t) 0%float) in Fb, Nb.
+    pose proof (feqb0_false _ Fb Nb) as Z'. change (@eqb AF) with PrimFloat.eqb in Z. change (@zero AF) with 0%float in Z.
+    fl. rewrite Z in Z'. discriminate.
+  - destruct (pivots_from_data t Hn HF HS HD k ltac:(lia)) as ((Fb & Nb & _) & _).
+    destruct (fwd_rel_det t r k bl gl yl Rel (k - 1)%nat ltac:(lia)) as (Eb & _).
+    cbn [div AF] in Eg. injection Eg as Eg. change (@zero AF) with 0%float in *. fl. rewrite Eb in Eg.
+    destruct k as [|k']; [lia|]. replace (S k' - 1)%nat with k' in * by lia.
+    rewrite tbeta_S in Fb, Nb. cbn [tgamma] in Fb, Nb. fl. rewrite Eg in Fb, Nb.
+    pose proof (feqb0_false _ Fb Nb) as Z'. cbn [sub mul AF eqb] in Ez. fl. rewrite Ez in Z'. discriminate.
+Qed.
+
+Theorem thomas_dominant_float_lemma (t : tridiag AF) (r : list pfloat) :
+  wfT t -> (1 <= tn t)%nat -> length r = tn t -> tri_finite t -> tri_scaled t -> dominant_f t ->
+  exists x, tsolve (A := AF) t r = Ok x /\ length x = tn t /\
+    ((forall i, (i < tn t)%nat -> ffinite (nth i x 0%float)) -> thomas_nounder_rhs t r x ->
+     forall i, (i < tn t)%nat -> exists da db dc,
+       Rabs da <= 3 * u64 * Rabs (FR (nth i (0%float :: tsub t) 0%float)) /\
+       Rabs db <= 5 * u64 * Rabs (FR (nth i (tmain t) 0%float)) + 9 * u64 * Rabs (FR (nth i (0%float :: tsub t) 0%float)) /\
+       Rabs dc <= 5 * u64 * Rabs (FR (nth i (tsup t) 0%float)) /\
+       (FR (nth i (0%float :: tsub t) 0%float) + da) * FR (nth i (0%float :: x) 0%float)
+       + (FR (nth i (tmain t) 0%float) + db) * FR (nth i x 0%float)
+       + (FR (nth i (tsup t) 0%float) + dc) * FR (nth (i + 1) x 0%float) = FR (nth i r 0%float)).
+Proof.
+  intros W Hn Hr HF HS HD.
+  destruct (thomas_dominant_solved_float_lemma t r W Hn Hr HF HS HD) as (x & E & Lx).
+  exists x. split; [exact E|]. split; [exact Lx|]. intros Fx UR.
+  pose proof (pivots_from_data t Hn HF HS HD) as P.
+  apply (thomas_dominant_backward_stable_float_lemma t r x W Hn Hr HD E Fx); [| |exact UR].
+  - intros k Hk. now destruct (P k Hk) as ((Fb & _) & _).
+  - intros k Hk. destruct (P k ltac:(lia)) as (_ & M). destruct (M Hk) as ((_ & _ & _ & U1) & U2). split; assumption.
+Qed.
